@@ -9,7 +9,7 @@ CHECKS = {
          "Random well-formed models (table-driven powerset family, bounded knapsack, set packing with dynamic order, common-subsequence with long arcs) x all solver configurations, plus every 3-variable/2-atom table (strided in the quick tier) and 10-16 item knapsacks (long searches); each uninterrupted run compared with the exact optimum; non-termination detected by a proven poll budget, crashes by catch_unwind." + EXPL,
          TRUST + "poll-budget bound (DESIGN §1).", "§7 C01"),
  "C02": ("property-based testing with a validity-predicate oracle (independent replay of the reported decisions) over uninterrupted, cut-off and scheduled-parallel runs",
-         "Every reported solution is replayed through the atom tables (feasibility, one decision per variable, value = lb = Completion value, ub = value after uninterrupted runs) on sequential runs, on the sequential solver cut at every poll index, and on the parallel solver under owned schedules." + EXPL,
+         "Every reported solution is replayed through the atom tables (feasibility, one decision per variable, value = lb = Completion value, ub = value after uninterrupted runs) on sequential runs, on the sequential solver cut at every poll index, and on the parallel solver under owned schedules and on real threads; plus the knapsack / set-packing / common-subsequence families (small and large, each with its own replay function)." + EXPL,
          TRUST + "cooperative scheduler (DESIGN §6).", "§7 C02"),
  "C03": ("schedule-owning property-based testing: cooperative scheduler over add-only hooks, random / PCT / systematically enumerated schedules, differential against h*; plus real-thread stress",
          "ParallelSolver with 1..4 workers under a harness-owned schedule (critical sections, condvar parks, and optionally cutoff polls / cache / dominance operations as yield points); random byte schedules (shrinkable), PCT priorities, and every schedule within a deviation bound on small bases; real-thread stress 2..16 workers, plus real-thread runs (1-2 workers) with the duplicate-free fringe forced on re-convergent table models and 10-16 item knapsacks." + EXPL,
